@@ -662,4 +662,33 @@ theorem nexthop_not_linklocal_counterexample :
     decNexthop 1 32 (as16 [192, 0, 2, 1] ++ as16 [192, 0, 2, 2]) = some (as16 [192, 0, 2, 1], as16 [192, 0, 2, 2]) ∧
     (encNexthop 2 1 (as16 [192, 0, 2, 1]) (as16 [192, 0, 2, 2])).length = 16 := by decide
 
+
+/-! ## Object history: what a Serialize leaves behind
+
+`serialize` returns the object as BGPMessage.Serialize leaves it.  A refused Serialize returns no
+object at all, i.e. leaves the message untouched — the harness replays "refused → retry" and
+"refused → trim → serialise" on the real code against this (`enc2`, class
+history:after-refused-serialize).  After a SUCCESSFUL Serialize the cached Header.Len is reused
+(known finding history:header-len-cached-by-success): -/
+
+/-- a message built fresh (Header.Len = 0) is encoded as a function of its value and the options
+    only: header length = 19 + body, and the cap applies -/
+theorem fresh_serialize_value_only (o : Opts) (m : Msg) (bs : Bytes) (m' : Msg) (h0 : m.hlen = 0)
+    (hs : serialize o m = some (bs, m')) :
+    bs = encHeader (19 + (encBody o m.body).length) m.typ ++ encBody o m.body ∧
+    19 + (encBody o m.body).length ≤ maxLen o m.typ := by
+  obtain ⟨_, _, e3, e4, _⟩ := serialize_object hs
+  obtain ⟨hl, hc⟩ := e4 h0
+  rw [hl] at e3
+  exact ⟨e3, by omega⟩
+
+/-- the known finding, on the model: serialise, drop the NLRI, serialise again — the header still
+    announces the old length (27 octets announced, 23 emitted) -/
+theorem header_cache_counterexample :
+    ∃ bs1 m1 bs2 m2,
+      serialize ⟨false, false, false, false⟩ (mkUpdate [] [] [⟨0, ⟨24, [10, 1, 2, 0]⟩⟩]) = some (bs1, m1) ∧
+      serialize ⟨false, false, false, false⟩
+        { m1 with body := .update ⟨0, [], 0, [], []⟩ } = some (bs2, m2) ∧
+      bs2.length = 23 ∧ rd16 (bs2.drop 16) = 27 := ⟨_, _, _, _, rfl, rfl, by decide, by decide⟩
+
 end C04
